@@ -101,7 +101,13 @@ fn spell(l: &str) -> String {
 /// pinned expansion calls the non-const `Language::default()` for it).
 /// A function of the case itself (not of its index), so that a replay crate uses the same form.
 fn ctx_of(c: &MCase) -> u64 {
-    let k = hash_str(&format!("{}|{:?}", c.mac, c.lits)) % 6;
+    let k = hash_str(&format!("{}|{:?}", c.mac, c.lits)) % 7;
+    if k == 6 {
+        // 6 = through a macro_rules wrapper of the generated crate that expands to TWO invocations
+        // at one outer call site (a decoy first, then the literal under test): single-literal macros on
+        // well-formed literals only (an error inside a wrapper is reported at the wrapper's body)
+        return if is_list(&c.mac) || !c.expect_ok { 0 } else { 6 };
+    }
     if k >= 4 && !const_ok(c) {
         return k - 4;
     }
@@ -127,7 +133,11 @@ fn invocation(c: &MCase) -> String {
     if c.trailing_comma {
         a.push(',');
     }
-    let name = if ctx_of(c) == 2 { c.mac.clone() } else { path_of(&c.mac) };
+    let name = match ctx_of(c) {
+        2 => c.mac.clone(),
+        6 => format!("w_{}", c.mac),
+        _ => path_of(&c.mac),
+    };
     if is_list(&c.mac) {
         format!("{name}![{a}]")
     } else {
@@ -149,6 +159,12 @@ fn context(c: &MCase) -> (String, String, String) {
 }
 
 const PRELUDE: &str = r#"#![allow(unused, clippy::all)]
+macro_rules! w_lang { ($l:expr) => {{ let _d = unic_langid::lang!("zz"); unic_langid::lang!($l) }} }
+macro_rules! w_script { ($l:expr) => {{ let _d = unic_langid::script!("Zzzz"); unic_langid::script!($l) }} }
+macro_rules! w_region { ($l:expr) => {{ let _d = unic_langid::region!("ZZ"); unic_langid::region!($l) }} }
+macro_rules! w_variant { ($l:expr) => {{ let _d = unic_langid::variant!("zzzzz"); unic_langid::variant!($l) }} }
+macro_rules! w_langid { ($l:expr) => {{ let _d = unic_langid::langid!("zz-Zzzz-ZZ-zzzzz-yyyyy"); unic_langid::langid!($l) }} }
+macro_rules! w_locale { ($l:expr) => {{ let _d = unic_locale::locale!("zz-Zzzz-ZZ-zzzzz-t-zz-z0-zzz-u-zzz-zz-zzz-x-zz"); unic_locale::locale!($l) }} }
 use std::collections::hash_map::DefaultHasher;
 use std::fmt::{Debug, Display};
 use std::hash::{Hash, Hasher};
@@ -691,7 +707,7 @@ fn judge(cases: &[MCase], outcomes: &[Option<Outcome>], st: &mut Stats) {
             continue;
         };
         st.class(&format!("{}:{}", if c.expect_ok { "well-formed" } else { "ill-formed" }, c.mac));
-        st.class(["form: by path", "form: by path", "form: imported, bare name", "form: inside a closure passed to a generic function", "form: initialiser of a const item", "form: initialiser of a static item"][ctx_of(c) as usize]);
+        st.class(["form: by path", "form: by path", "form: imported, bare name", "form: inside a closure passed to a generic function", "form: initialiser of a const item", "form: initialiser of a static item", "form: through a macro_rules wrapper that holds two invocations"][ctx_of(c) as usize]);
         if c.expect_ok {
             if nontrivial_ok(c) {
                 st.nontrivial(hash_str(&case().to_string()), case);
